@@ -57,8 +57,9 @@ from __future__ import annotations
 import ast
 from typing import Dict, List, Optional, Tuple
 
-from ..cfg import Branch, atoms, cfg_of, origins
+from ..cfg import Branch, atoms, cfg_of, names_in, origins
 from ..flowutil import attr_chain, callee, for_origin, mutations_of, must_pass, param_origin
+from ..idioms import _const_index, component_origins
 from ..index import AnalysisError, FuncNode, arg_of, call_name, calls_in, const, enclosing_class, enclosing_function, kwarg, last_attr, norm, short, walk_local
 
 LINTER = "src/sqlfluff/core/linter/linter.py"
@@ -103,9 +104,12 @@ def _whole_sources(cfg, e: ast.AST, at, _seen=None) -> List[Tuple[str, object, t
     ('param', name, ()), ('expr', node, path), ('other', node, path)."""
     _seen = _seen if _seen is not None else set()
     e = _peel(e)
-    if isinstance(e, ast.Name):
+    # ``pair[0]`` of a local holding a call result / a display is the same fact as the first
+    # target of ``a, b = <that value>``: read it as a component (path), like tuple unpacking
+    component = _const_index(e) is not None and isinstance(e.value, ast.Name) and param_origin(cfg, e.value, at) is None
+    if isinstance(e, ast.Name) or component:
         out = []
-        for o in origins(cfg, e, at):
+        for o in component_origins(cfg, e, at):
             if o.kind == "param":
                 out.append(("param", o.expr.arg, o.path))
             elif o.kind == "expr":
@@ -544,8 +548,11 @@ def _r02b(chk, repo) -> None:
 
 
 def _non_code_prefix(tiler, cfg, f, key) -> bool:
-    """The piece is ``X[:i]`` where ``i`` is the variable of a ``for i in range(len(X))`` scan
-    that stops (``break``) at the first element with ``is_code``: everything before it is non-code."""
+    """The piece is ``X[:i]`` where ``i`` is the index variable of a scan over ``X`` from its first
+    element (``for i in range(len(X))`` or ``for i, s in enumerate(X)``) that stops (``break``) at
+    the first element with ``is_code``: everything before it is non-code.  The element tested is
+    ``X[i]``, the element variable of ``enumerate``, or a local holding one of them; next to the
+    test the loop body only binds locals."""
     got = tiler.piece_expr.get(key)
     if got is None:
         return False
@@ -566,14 +573,50 @@ def _non_code_prefix(tiler, cfg, f, key) -> bool:
         if not isinstance(l, ast.For) or l.orelse:
             return False
         it = l.iter
-        if not (isinstance(it, ast.Call) and call_name(it) == "range" and len(it.args) == 1 and norm(it.args[0]) == f"len({x})"):
+        elem_var = None
+        if isinstance(it, ast.Call) and call_name(it) == "range" and len(it.args) == 1 and not it.keywords and norm(it.args[0]) == f"len({x})":
+            if not (isinstance(l.target, ast.Name) and l.target.id == i):
+                return False
+        elif isinstance(it, ast.Call) and call_name(it) == "enumerate" and len(it.args) == 1 and not it.keywords and norm(it.args[0]) == x:
+            tg = l.target
+            if not (isinstance(tg, ast.Tuple) and len(tg.elts) == 2 and all(isinstance(n, ast.Name) for n in tg.elts) and tg.elts[0].id == i and tg.elts[1].id != i):
+                return False
+            elem_var = tg.elts[1].id
+        else:
             return False
-        if len(l.body) != 1 or not isinstance(l.body[0], ast.If) or l.body[0].orelse:
+        if not l.body or not isinstance(l.body[-1], ast.If) or l.body[-1].orelse:
             return False
-        t = l.body[0]
-        if norm(t.test) != f"{x}[{i}].is_code" or len(t.body) != 1 or not isinstance(t.body[0], ast.Break):
+        t = l.body[-1]
+        for s in l.body[:-1]:
+            # plain bindings of other locals only: nothing that could leave the loop or move the index
+            if not (isinstance(s, ast.Assign) and len(s.targets) == 1 and isinstance(s.targets[0], ast.Name) and s.targets[0].id not in (i, x)):
+                return False
+            if any(isinstance(n, (ast.NamedExpr, ast.Yield, ast.YieldFrom, ast.Await)) for n in ast.walk(s)):
+                return False
+        if len(t.body) != 1 or not isinstance(t.body[0], ast.Break):
+            return False
+        if not (isinstance(t.test, ast.Attribute) and t.test.attr == "is_code"):
+            return False
+        who = t.test.value
+        if isinstance(who, ast.Name):
+            os_ = origins(cfg, who, t)
+            if len(os_) != 1:
+                return False
+            o = os_[0]
+            if o.kind == "for":
+                if not (elem_var is not None and (o.stmt is l or getattr(o.stmt, "node", None) is l) and tuple(o.path) == (1,)):
+                    return False
+            elif not (o.kind == "expr" and not o.path and isinstance(o.expr, ast.AST) and norm(o.expr) == f"{x}[{i}]" and _inside(o.stmt, l)):
+                return False
+        elif norm(who) != f"{x}[{i}]":
             return False
     return True
+
+
+def _inside(node, block) -> bool:
+    while node is not None and node is not block:
+        node = getattr(node, "_parent", None)
+    return node is block
 
 
 def _stable(text: str) -> str:
@@ -723,10 +766,18 @@ def _r02c(chk, repo) -> None:
             ok = False
             why = "is neither the unfiltered traversal of self.segments nor 'yield self' of an unparsable segment"
             loops = [s for s in body if isinstance(s, ast.For)]
-            if len(loops) == 1 and len(body) == 1 and isinstance(loops[0].target, ast.Name):
+            # next to the loop only plain bindings of locals (``children = self.segments``): they
+            # yield nothing and skip nothing; what the loop walks is decided on what it derives from
+            plain = all(
+                isinstance(s, ast.For)
+                or (isinstance(s, ast.Assign) and len(s.targets) == 1 and isinstance(s.targets[0], ast.Name) and not any(isinstance(x, (ast.Yield, ast.YieldFrom, ast.NamedExpr)) for x in ast.walk(s)))
+                for s in body
+            )
+            if len(loops) == 1 and plain and isinstance(loops[0].target, ast.Name):
                 l = loops[0]
                 v = l.target.id
-                it_ok = attr_chain(_peel(l.iter)) == ("self", "segments")
+                it_srcs = _whole_sources(fcfg, l.iter, l)
+                it_ok = bool(it_srcs) and all(k == "expr" and not pp and isinstance(x, ast.AST) and attr_chain(_peel(x)) == ("self", "segments") for k, x, pp in it_srcs)
                 inner = l.body
                 rec_ok = (
                     len(inner) == 1 and isinstance(inner[0], ast.Expr) and isinstance(inner[0].value, ast.YieldFrom)
@@ -793,17 +844,25 @@ def _r02d(chk, repo) -> None:
                     elif raw is not None:
                         pm = kwarg(c, "pos_marker")
 
+                        c_at = cfg.stmt_of(c) or r
+
                         def elem(e, attr):
-                            if not (isinstance(e, ast.Attribute) and e.attr == attr):
-                                return None
-                            srcs = _whole_sources(cfg, e.value, r)
+                            # the attribute read itself, or a local holding exactly that read
+                            reads = [(e, c_at)]
+                            if isinstance(e, ast.Name):
+                                reads = [(o.expr, o.stmt) if o.kind == "expr" and not o.path else (None, None) for o in origins(cfg, e, c_at)]
                             keys = set()
-                            for k, x, pp in srcs:
-                                x = _peel(x) if isinstance(x, ast.AST) else x
-                                if k == "expr" and isinstance(x, ast.Subscript) and param_origin(cfg, x.value, r) == p and isinstance(const(x.slice), int) and not pp:
-                                    keys.add(const(x.slice))
-                                else:
+                            for x0, x_at in reads:
+                                if not (isinstance(x0, ast.Attribute) and x0.attr == attr):
                                     return None
+                                for k, x, pp in _whole_sources(cfg, x0.value, x_at):
+                                    x = _peel(x) if isinstance(x, ast.AST) else x
+                                    if k == "expr" and isinstance(x, ast.Subscript) and param_origin(cfg, x.value, x_at) == p and isinstance(const(x.slice), int) and not pp:
+                                        keys.add(const(x.slice))
+                                    elif k == "param" and x == p and len(pp) == 1 and isinstance(pp[0], int):
+                                        keys.add(pp[0])  # element read into a local first: first = result_segments[0]
+                                    else:
+                                        return None
                             return keys.pop() if len(keys) == 1 else None
 
                         i1, i2 = elem(raw, "raw"), elem(pm, "pos_marker") if pm is not None else None
@@ -841,11 +900,35 @@ def _is_match_result(repo, c: ast.Call) -> bool:
     return isinstance(c, ast.Call) and last_attr(c) == "MatchResult" and isinstance(c.func, ast.Name)
 
 
-def _slice_of(c: ast.Call) -> Optional[ast.Call]:
+def _slice_of(c: ast.Call, cfg=None) -> Optional[ast.Call]:
+    """The ``slice(a, b)`` a MatchResult is built with; given ``cfg`` also when it is read from a
+    local holding exactly one such call whose bounds are not re-bound in between."""
     s = kwarg(c, "matched_slice") or (c.args[0] if c.args else None)
+    if isinstance(s, ast.Name) and cfg is not None:
+        at = cfg.stmt_of(c)
+        os_ = origins(cfg, s, at)
+        if len(os_) == 1 and os_[0].kind == "expr" and not os_[0].path and isinstance(os_[0].expr, ast.Call) and os_[0].stmt is not None:
+            rd = cfg.reaching()
+            if all(rd.defs_at(os_[0].stmt, n) == rd.defs_at(at, n) for n in names_in(os_[0].expr)):
+                s = os_[0].expr
     if isinstance(s, ast.Call) and call_name(s) == "slice" and len(s.args) == 2:
         return s
     return None
+
+
+def _returned_results(cfg, f):
+    """(call, statement it is evaluated at) of every returned call, directly or through a local."""
+    out = []
+    for r in walk_local(f):
+        if not isinstance(r, ast.Return) or r.value is None:
+            continue
+        if isinstance(r.value, ast.Call):
+            out.append((r.value, r))
+        elif isinstance(r.value, ast.Name):
+            for o in origins(cfg, r.value, r):
+                if o.kind == "expr" and not o.path and isinstance(o.expr, ast.Call) and o.stmt is not None:
+                    out.append((o.expr, o.stmt))
+    return out
 
 
 def _is_unparsable_result(repo, c: ast.Call) -> bool:
@@ -871,7 +954,7 @@ def _r02e(chk, repo) -> None:
                 if not _is_unparsable_result(repo, c):
                     continue
                 n_unp += 1
-                sl = _slice_of(c)
+                sl = _slice_of(c, cfg)
                 if sl is None:
                     continue
                 st = cfg.stmt_of(c)
@@ -895,10 +978,10 @@ def _r02e(chk, repo) -> None:
                         outer = par
                         break
                     par = getattr(par, "_parent", None)
-                if outer is None and isinstance(st, ast.Return):
+                if outer is None and (isinstance(st, ast.Return) or any(rc0 is c for rc0, _ in _returned_results(cfg, f))):
                     continue  # the unparsable result itself is returned
                 if outer is not None:
-                    osl = _slice_of(outer)
+                    osl = _slice_of(outer, cfg)
                     n_inline += 1
                     good = osl is not None and t.point(osl.args[1], st) == stop_c
                     chk.require(
@@ -916,8 +999,7 @@ def _r02e(chk, repo) -> None:
                     tgt = st.targets[0].id
                 if tgt is None:
                     continue
-                for r in [r for r in walk_local(f) if isinstance(r, ast.Return) and isinstance(r.value, ast.Call)]:
-                    rc = r.value
+                for rc, r in _returned_results(cfg, f):
                     while isinstance(rc, ast.Call) and isinstance(rc.func, ast.Attribute) and rc.func.attr == "wrap":
                         rc = rc.func.value
                     if not _is_match_result(repo, rc):
@@ -925,7 +1007,7 @@ def _r02e(chk, repo) -> None:
                     cm = kwarg(rc, "child_matches")
                     if not (isinstance(cm, ast.Name) and cm.id == tgt) or not cfg.reaches(st, r):
                         continue
-                    rsl = _slice_of(rc)
+                    rsl = _slice_of(rc, cfg)
                     if rsl is None:
                         continue
                     n_flow += 1
@@ -965,7 +1047,7 @@ def _r02e(chk, repo) -> None:
         return False
 
     for c in [c for c in calls_in(f) if _is_match_result(repo, c)]:
-        sl = _slice_of(c)
+        sl = _slice_of(c, cfg)
         if sl is None:
             continue
         st = cfg.stmt_of(c)
@@ -994,7 +1076,7 @@ def _r02e(chk, repo) -> None:
         if cm is not None:
             for x in ast.walk(cm):
                 if isinstance(x, ast.Call) and _is_match_result(repo, x) and _is_unparsable_result(repo, x):
-                    xs = _slice_of(x)
+                    xs = _slice_of(x, cfg)
                     if xs is not None and t.point(xs.args[1], st) == stop_c:
                         child = True
         chk.require(
@@ -1099,6 +1181,212 @@ _TAIL_OLD = (
 )
 
 VARIANTS: List[Variant] = [
+    # behaviour-preserving refactors: must stay quiet
+    Variant(
+        "quiet-lex-result-kept-whole-and-indexed", LINTER,
+        "            tokens, lex_errors = cls._lex_templated_file(variant, rendered.config)\n",
+        "            lexed = cls._lex_templated_file(variant, rendered.config)\n            tokens = lexed[0]\n            lex_errors = lexed[1]\n",
+        "QUIET", None, "the result pair is kept whole and its components are read by index",
+    ),
+    Variant(
+        "quiet-parse-result-kept-whole-and-indexed", LINTER,
+        "                parsed, parse_errors = cls._parse_tokens(\n                    tokens,\n                    rendered.config,\n                    fname=rendered.fname,\n                    parse_statistics=parse_statistics,\n                )\n",
+        "                parse_result = cls._parse_tokens(\n                    tokens,\n                    rendered.config,\n                    fname=rendered.fname,\n                    parse_statistics=parse_statistics,\n                )\n                parsed = parse_result[0]\n                parse_errors = parse_result[1]\n",
+        "QUIET", None, "the (tree, errors) pair is kept whole and indexed",
+    ),
+    Variant(
+        "quiet-parsed-variant-by-keyword", LINTER,
+        "                ParsedVariant(\n                    variant,\n                    parsed,\n                    lex_errors,\n                    parse_errors,\n                )\n",
+        "                ParsedVariant(\n                    templated_file=variant,\n                    tree=parsed,\n                    lexing_violations=lex_errors,\n                    parsing_violations=parse_errors,\n                )\n",
+        "QUIET", None, "fields passed by keyword",
+    ),
+    Variant(
+        "quiet-empty-token-branch-first", LINTER,
+        "            if tokens:\n                parsed, parse_errors = cls._parse_tokens(\n                    tokens,\n                    rendered.config,\n                    fname=rendered.fname,\n                    parse_statistics=parse_statistics,\n                )\n            else:  # pragma: no cover\n                parsed = None\n                parse_errors = []\n",
+        "            if not tokens:  # pragma: no cover\n                parsed = None\n                parse_errors = []\n            else:\n                parsed, parse_errors = cls._parse_tokens(\n                    tokens=tokens,\n                    config=rendered.config,\n                    fname=rendered.fname,\n                    parse_statistics=parse_statistics,\n                )\n",
+        "QUIET", None, "branches swapped, tokens passed by keyword",
+    ),
+    Variant(
+        "quiet-parser-input-through-local-and-keyword", LINTER,
+        "            parsed: Optional[BaseSegment] = parser.parse(\n                # Regardless of how the sequence was passed in, we should\n                # coerce it to a tuple here, before we head deeper into\n                # the parsing process.\n                tuple(tokens),\n",
+        "            token_tuple = tuple(tokens)\n            parsed: Optional[BaseSegment] = parser.parse(\n                segments=token_tuple,\n",
+        "QUIET", None, "the tuple goes through a local and is passed by keyword",
+    ),
+    Variant(
+        "quiet-prs-error-through-local", LINTER,
+        "            violations.append(\n                SQLParseError(\n                    \"Line {0[0]}, Position {0[1]}: Found unparsable section: \"\n                    \"{1!r}\".format(\n                        unparsable.pos_marker.working_loc,\n                        (\n                            unparsable.raw\n                            if len(unparsable.raw) < 40\n                            else unparsable.raw[:40] + \"...\"\n                        ),\n                    ),\n                    segment=unparsable,\n                )\n            )\n",
+        "            prs_error = SQLParseError(\n                \"Line {0[0]}, Position {0[1]}: Found unparsable section: \"\n                \"{1!r}\".format(\n                    unparsable.pos_marker.working_loc,\n                    (\n                        unparsable.raw\n                        if len(unparsable.raw) < 40\n                        else unparsable.raw[:40] + \"...\"\n                    ),\n                ),\n                segment=unparsable,\n            )\n            violations.append(prs_error)\n",
+        "QUIET", None, "the error is built into a local, then appended",
+    ),
+    Variant(
+        "quiet-unparsable-loop-over-named-tree", LINTER,
+        "        for unparsable in parsed.iter_unparsables():\n",
+        "        tree = parsed\n        for unparsable in tree.iter_unparsables():\n",
+        "QUIET", None, "the parsed tree through one more local",
+    ),
+    Variant(
+        "quiet-parse-tokens-returns-named-tree", LINTER,
+        "        return parsed, violations\n\n    @staticmethod\n    def remove_templated_errors(\n",
+        "        tree = parsed\n        return tree, violations\n\n    @staticmethod\n    def remove_templated_errors(\n",
+        "QUIET", None, "returned tree through a local",
+    ),
+    Variant(
+        "quiet-parser-shares-one-tuple", PARSER,
+        "        root = self.RootSegment.root_parse(\n            tuple(segments), fname=fname, parse_context=ctx\n        )\n\n        # Basic Validation, that we haven't dropped anything.\n        check_still_complete(tuple(segments), (root,), ())\n",
+        "        seg_tuple = tuple(segments)\n        root = self.RootSegment.root_parse(\n            segments=seg_tuple, parse_context=ctx, fname=fname\n        )\n\n        # Basic Validation, that we haven't dropped anything.\n        check_still_complete(seg_tuple, (root,), ())\n",
+        "QUIET", None, "one tuple shared, keyword argument, keywords reordered",
+    ),
+    Variant(
+        "quiet-root-match-stop-through-local", FILESEG,
+        "        _unmatched = segments[match.matched_slice.stop : _end_idx]\n",
+        "        _match_stop = match.matched_slice.stop\n        _unmatched = segments[_match_stop:_end_idx]\n",
+        "QUIET", None, "the end of the root match through a local",
+    ),
+    Variant(
+        "quiet-root-nested-if-instead-of-elif", FILESEG,
+        "        elif _unmatched:\n            _idx = 0\n            for _idx in range(len(_unmatched)):\n                if _unmatched[_idx].is_code:\n                    break\n            parse_context.increment_parse_nodes()\n            content = (\n                _matched\n                + _unmatched[:_idx]\n                + (\n                    UnparsableSegment(\n                        _unmatched[_idx:], expected=\"Nothing else in FileSegment.\"\n                    ),\n                )\n            )\n        else:\n            content = _matched + _unmatched\n",
+        "        else:\n            if _unmatched:\n                _idx = 0\n                for _idx in range(len(_unmatched)):\n                    if _unmatched[_idx].is_code:\n                        break\n                parse_context.increment_parse_nodes()\n                content = (\n                    _matched\n                    + _unmatched[:_idx]\n                    + (\n                        UnparsableSegment(\n                            _unmatched[_idx:], expected=\"Nothing else in FileSegment.\"\n                        ),\n                    )\n                )\n            else:\n                content = _matched + _unmatched\n",
+        "QUIET", None, "elif spelled as else: if",
+    ),
+    Variant(
+        "quiet-root-pieces-named", FILESEG,
+        "            content = (\n                _matched\n                + _unmatched[:_idx]\n                + (\n                    UnparsableSegment(\n                        _unmatched[_idx:], expected=\"Nothing else in FileSegment.\"\n                    ),\n                )\n            )\n",
+        "            _gap = _unmatched[:_idx]\n            _rest = UnparsableSegment(\n                _unmatched[_idx:], expected=\"Nothing else in FileSegment.\"\n            )\n            content = _matched + _gap + (_rest,)\n",
+        "QUIET", None, "gap and unparsable remainder named before the concatenation",
+    ),
+    Variant(
+        "quiet-root-code-scan-reads-element-through-local", FILESEG,
+        "            for _idx in range(len(_unmatched)):\n                if _unmatched[_idx].is_code:\n                    break\n",
+        "            for _idx in range(len(_unmatched)):\n                _seg = _unmatched[_idx]\n                if _seg.is_code:\n                    break\n",
+        "QUIET", None, "the scanned element goes through a local",
+    ),
+    Variant(
+        "quiet-root-code-scan-with-enumerate", FILESEG,
+        "            for _idx in range(len(_unmatched)):\n                if _unmatched[_idx].is_code:\n                    break\n",
+        "            for _idx, _seg in enumerate(_unmatched):\n                if _seg.is_code:\n                    break\n",
+        "QUIET", None, "enumerate instead of range(len()): same final index with and without a break",
+    ),
+    Variant(
+        "quiet-root-assembly-starred", FILESEG,
+        "            segments[:_start_idx] + content + segments[_end_idx:],\n",
+        "            (*segments[:_start_idx], *content, *segments[_end_idx:]),\n",
+        "QUIET", None, "concatenation spelled as a starred tuple display",
+    ),
+    Variant(
+        "quiet-root-all-non-code-by-keyword", FILESEG,
+        "            return cls(segments, fname=fname)\n",
+        "            return cls(segments=segments, fname=fname)\n",
+        "QUIET", None, "keyword argument",
+    ),
+    Variant(
+        "quiet-root-no-match-test-by-else", FILESEG,
+        "        if not match:\n            parse_context.increment_parse_nodes()\n            content = (\n                UnparsableSegment(\n                    segments[_start_idx:_end_idx], expected=str(cls.match_grammar)\n                ),\n            )\n        elif _unmatched:\n",
+        "        _no_match = not match\n        if _no_match:\n            parse_context.increment_parse_nodes()\n            _whole = segments[_start_idx:_end_idx]\n            content = (UnparsableSegment(_whole, expected=str(cls.match_grammar)),)\n        elif _unmatched:\n",
+        "QUIET", None, "test through a boolean local, wrapped slice through a local",
+    ),
+    Variant(
+        "quiet-raw-retype-element-by-unpacking", SEGRAW,
+        "        raw_seg = cast(\"RawSegment\", result_segments[0])\n",
+        "        first = result_segments[0]\n        raw_seg = cast(\"RawSegment\", first)\n",
+        "QUIET", None, "matched token through one more local",
+    ),
+    Variant(
+        "quiet-raw-retype-fields-through-locals", SEGRAW,
+        "        return cls(\n            raw=raw_seg.raw,\n            pos_marker=raw_seg.pos_marker,\n            **new_segment_kwargs,\n        )\n",
+        "        raw_text = raw_seg.raw\n        marker = raw_seg.pos_marker\n        new_seg = cls(\n            raw=raw_text,\n            pos_marker=marker,\n            **new_segment_kwargs,\n        )\n        return new_seg\n",
+        "QUIET", None, "copied fields through locals, result through a local",
+    ),
+    Variant(
+        "quiet-base-node-children-through-local", SEGBASE,
+        "        return cls(segments=result_segments, **segment_kwargs)\n",
+        "        children = result_segments\n        node = cls(segments=children, **segment_kwargs)\n        return node\n",
+        "QUIET", None, "children and node through locals",
+    ),
+    Variant(
+        "quiet-traversal-nested-loop-yield", SEGBASE,
+        "        for s in self.segments:\n            yield from s.iter_unparsables()\n",
+        "        for s in self.segments:\n            for u in s.iter_unparsables():\n                yield u\n",
+        "QUIET", None, "yield from spelled as an inner loop",
+    ),
+    Variant(
+        "quiet-traversal-children-through-local", SEGBASE,
+        "        for s in self.segments:\n            yield from s.iter_unparsables()\n",
+        "        children = self.segments\n        for s in children:\n            yield from s.iter_unparsables()\n",
+        "QUIET", None, "self.segments through a local",
+    ),
+    Variant(
+        "quiet-seq-unstarted-unparsable-through-local", SEQ,
+        "                if matched_idx == start_idx:\n                    return MatchResult(\n                        matched_slice=slice(start_idx, max_idx),\n                        matched_class=UnparsableSegment,\n",
+        "                if matched_idx == start_idx:\n                    _claimed = slice(start_idx, max_idx)\n                    return MatchResult(\n                        matched_slice=_claimed,\n                        matched_class=UnparsableSegment,\n",
+        "QUIET", None, "the claimed slice through a local",
+    ),
+    Variant(
+        "quiet-seq-partial-child-built-first", SEQ,
+        "                    matched_slice=slice(start_idx, max_idx),\n                    insert_segments=insert_segments,\n                    child_matches=child_matches\n                    + (\n                        MatchResult(\n                            # The unparsable section is just the remaining\n                            # segments we were unable to match from the\n                            # sequence.\n                            matched_slice=slice(_start_idx, max_idx),\n                            matched_class=UnparsableSegment,\n                            segment_kwargs={\n                                \"expected\": (\n                                    f\"{elem} after {segments[matched_idx - 1]}. \"\n                                    f\"Found {segments[_idx]}\"\n                                )\n                            },\n                        ),\n                    ),\n                )\n",
+        "                    matched_slice=slice(start_idx, max_idx),\n                    insert_segments=insert_segments,\n                    child_matches=(\n                        *child_matches,\n                        MatchResult(\n                            matched_slice=slice(_start_idx, max_idx),\n                            matched_class=UnparsableSegment,\n                            segment_kwargs={\n                                \"expected\": (\n                                    f\"{elem} after {segments[matched_idx - 1]}. \"\n                                    f\"Found {segments[_idx]}\"\n                                )\n                            },\n                        ),\n                    ),\n                )\n",
+        "QUIET", None, "child tuple spelled with a star instead of +",
+    ),
+    Variant(
+        "quiet-seq-tail-conditions-merged", SEQ,
+        "            if max_idx > matched_idx:\n                _idx = skip_start_index_forward_to_code(segments, matched_idx, max_idx)\n",
+        "            if matched_idx < max_idx:\n                _idx = skip_start_index_forward_to_code(segments, matched_idx, max_idx)\n",
+        "QUIET", None, "comparison mirrored",
+    ),
+    Variant(
+        "quiet-seq-tail-child-through-local", SEQ,
+        "                    child_matches += (\n                        MatchResult(\n                            # The unparsable section is just the remaining\n                            # segments we were unable to match from the\n                            # sequence.\n                            matched_slice=slice(_idx, _stop_idx),\n                            matched_class=UnparsableSegment,\n                            # TODO: We should come up with a better \"expected\" string\n                            # than this\n                            segment_kwargs={\"expected\": \"Nothing here.\"},\n                        ),\n                    )\n",
+        "                    child_matches = child_matches + (\n                        MatchResult(\n                            matched_slice=slice(_idx, _stop_idx),\n                            matched_class=UnparsableSegment,\n                            segment_kwargs={\"expected\": \"Nothing here.\"},\n                        ),\n                    )\n",
+        "QUIET", None, "+= spelled as x = x + y",
+    ),
+    Variant(
+        "quiet-seq-final-result-through-local", SEQ,
+        "        return MatchResult(\n            matched_slice=slice(start_idx, matched_idx),\n            insert_segments=insert_segments,\n            child_matches=child_matches,\n        )\n\n\nclass Bracketed(Sequence):\n",
+        "        result = MatchResult(\n            matched_slice=slice(start_idx, matched_idx),\n            insert_segments=insert_segments,\n            child_matches=child_matches,\n        )\n        return result\n\n\nclass Bracketed(Sequence):\n",
+        "QUIET", None, "returned result through a local",
+    ),
+    # breaking twins in the spellings the QUIET sweep taught the rules to read
+    Variant(
+        "code-scan-through-local-reads-previous-element", FILESEG,
+        "            for _idx in range(len(_unmatched)):\n                if _unmatched[_idx].is_code:\n                    break\n",
+        "            for _idx in range(len(_unmatched)):\n                _seg = _unmatched[_idx - 1]\n                if _seg.is_code:\n                    break\n",
+        "R02b", "root_parse", "scan stops one late: the first unmatched code token is attached bare",
+    ),
+    Variant(
+        "code-scan-enumerate-counts-from-one", FILESEG,
+        "            for _idx in range(len(_unmatched)):\n                if _unmatched[_idx].is_code:\n                    break\n",
+        "            for _idx, _seg in enumerate(_unmatched, 1):\n                if _seg.is_code:\n                    break\n",
+        "R02b", "root_parse", "index one past the first code token: it is attached bare",
+    ),
+    Variant(
+        "lex-result-indexed-wrong-component", LINTER,
+        "            tokens, lex_errors = cls._lex_templated_file(variant, rendered.config)\n",
+        "            lexed = cls._lex_templated_file(variant, rendered.config)\n            tokens = lexed[1]\n            lex_errors = lexed[0]\n",
+        "R02a", "parse_rendered", "components swapped in the indexed spelling",
+    ),
+    Variant(
+        "retyped-token-marker-from-other-element-through-locals", SEGRAW,
+        "        return cls(\n            raw=raw_seg.raw,\n            pos_marker=raw_seg.pos_marker,\n            **new_segment_kwargs,\n        )\n",
+        "        raw_text = raw_seg.raw\n        marker = result_segments[-1].pos_marker.start_point_marker()\n        return cls(\n            raw=raw_text,\n            pos_marker=marker,\n            **new_segment_kwargs,\n        )\n",
+        "R02d", "RawSegment.from_result_segments", "position is not the matched token's, in the through-locals spelling",
+    ),
+    Variant(
+        "traversal-through-local-skips-first-child", SEGBASE,
+        "        for s in self.segments:\n            yield from s.iter_unparsables()\n",
+        "        children = self.segments[1:]\n        for s in children:\n            yield from s.iter_unparsables()\n",
+        "R02c", "BaseSegment.iter_unparsables", "a slice of the children in the through-local spelling",
+    ),
+    Variant(
+        "greedy-tail-not-claimed-result-through-local", SEQ,
+        "                    # Match up to the end.\n                    matched_idx = _stop_idx\n\n        return MatchResult(\n            matched_slice=slice(start_idx, matched_idx),\n            insert_segments=insert_segments,\n            child_matches=child_matches,\n        )\n",
+        "\n        result = MatchResult(\n            matched_slice=slice(start_idx, matched_idx),\n            insert_segments=insert_segments,\n            child_matches=child_matches,\n        )\n        return result\n",
+        "R02e", "Sequence.match", "child added, parent ends at the last element match; the result is returned through a local",
+    ),
+    Variant(
+        "unstarted-greedy-slice-through-local-not-flagged", SEQ,
+        "                if matched_idx == start_idx:\n                    return MatchResult(\n                        matched_slice=slice(start_idx, max_idx),\n                        matched_class=UnparsableSegment,\n",
+        "                if matched_idx == start_idx:\n                    _claimed = slice(start_idx, max_idx)\n                    return MatchResult(\n                        matched_slice=_claimed,\n",
+        "R02e", "Sequence.match", "claimed tokens without a PRS error, slice through a local",
+    ),
     # ---- behaviour-preserving edits: the check must stay quiet -------------------------------
     Variant(
         "quiet-full-match-branch-without-empty-remainder", FILESEG,
